@@ -33,6 +33,16 @@ Theorem C15_rename_keeps_functional : forall g p c new, functional g -> fresh g 
 Proof. exact rename_functional. Qed.
 Print Assumptions C15_rename_keeps_functional.
 
+(* `functional` is what every table built by the code satisfies: the empty table does, and insert (called only after
+   the identifier's lookup in that node failed), export (which refuses a second target) and remove keep it. *)
+Theorem C15_functional_is_invariant :
+  functional [] /\
+  (forall g parent_nx id new_nx, functional g -> child g parent_nx id = None -> functional (insert g parent_nx id new_nx)) /\
+  (forall g to_export_nx new_nx new_id g', functional g -> export g to_export_nx new_nx new_id = Some g' -> functional g') /\
+  (forall g nx, functional g -> functional (remove g nx)).
+Proof. exact functional_invariant. Qed.
+Print Assumptions C15_functional_is_invariant.
+
 (* The edit set: one edit per definition site / usage of the symbol found at the position, except usages written
    `super` -- nothing else (comments, strings, equally named symbols of other scopes are no usages of it, C16). *)
 Theorem C15_edit_spans_are_usages : forall fuel g slice nx d new g' edits,
